@@ -1,13 +1,19 @@
 import Toq.Driver.Util
 import Toq.Driver.QJson
 import Toq.Model.Games
+import Toq.Model.Npa
 /-! Driver front end for C07 (nonlocal games): tensors arrive as flat C-order lists of rationals
 (`[num, den]` or integers), are turned into index functions, and the mirror models of
 `Toq/Model/Games.lean` are evaluated on them.
 
 Ops: `c07_classical_value` (mirror of the code as it is), `c07_classical_value_fixed` (repaired bound),
 `c07_max_det` (brute force over all strategy pairs = the specification), `c07_product_game`
-(`reps` branch of the constructor), `c07_bcs_game` (`from_bcs_game`), `c07_history` (state machine). -/
+(`reps` branch of the constructor), `c07_bcs_game` (`from_bcs_game`), `c07_history` (state machine; `classical` steps use the repaired bound, as /repo does since the fix).
+
+NPA part (`Toq/Model/Npa.lean`): `c07_npa_words` (`_gen_words`), `c07_npa_reduce` (`_reduce`), `c07_npa_parse` (`_parse`),
+`c07_npa_constraints` (`npa_constraints` as data, in emission order), `c07_npa_embed` (the point `(z, K)` of a
+deterministic strategy and its objective value).  Symbols travel as `[player, question, answer]` with player
+0 = `""`, 1 = Alice, 2 = Bob (`Symbol("")` = `[0, 0, 0]`). -/
 open Lean Toq.Games
 
 namespace Toq.Driver.C07
@@ -130,6 +136,135 @@ def odometer : Handler := fun j => do
   let n := old.length
   return Json.mkObj [("new", natListJson (listOfFn n (updateOdometer n (fnOfList old) (fnOfList lim))))]
 
+
+/-! ## NPA hierarchy -/
+section Npa
+open Toq.Npa
+
+def symJson (s : Sym) : Json :=
+  natListJson [match s.player with | .none => 0 | .alice => 1 | .bob => 2, s.question, s.answer]
+
+def wordJson (w : Word) : Json := Json.arr (w.map symJson).toArray
+
+def symOfJson (v : Json) : Except String Sym := do
+  match ← asNatList v with
+  | [p, q, a] =>
+    match p with
+    | 0 => pure ⟨.none, q, a⟩
+    | 1 => pure ⟨.alice, q, a⟩
+    | 2 => pure ⟨.bob, q, a⟩
+    | _ => throw "player must be 0, 1 or 2"
+  | _ => throw "symbol must be [player, question, answer]"
+
+def pairsJson (l : List (Nat × Nat)) : Json := Json.arr (l.map fun c => natListJson [c.1, c.2]).toArray
+
+def constrJson : Constr → Json
+  | .norm => Json.arr #[Json.str "norm"]
+  | .psd => Json.arr #[Json.str "psd"]
+  | .zero i j => Json.arr #[Json.str "zero", Json.num i, Json.num j]
+  | .meas i j x y a b => Json.arr #[Json.str "meas", Json.num i, Json.num j, Json.num x, Json.num y, Json.num a, Json.num b]
+  | .margA i j x a => Json.arr #[Json.str "margA", Json.num i, Json.num j, Json.num x, Json.num a]
+  | .margB i j y b => Json.arr #[Json.str "margB", Json.num i, Json.num j, Json.num y, Json.num b]
+  | .same i j i' j' => Json.arr #[Json.str "same", Json.num i, Json.num j, Json.num i', Json.num j']
+  | .kNonneg x y a b => Json.arr #[Json.str "kNonneg", Json.num x, Json.num y, Json.num a, Json.num b]
+  | .kNorm x y => Json.arr #[Json.str "kNorm", Json.num x, Json.num y]
+  | .nsBob y b x => Json.arr #[Json.str "nsBob", Json.num y, Json.num b, Json.num x]
+  | .nsAlice x a y => Json.arr #[Json.str "nsAlice", Json.num x, Json.num a, Json.num y]
+
+structure NpaArgs where
+  ao : Nat
+  bo : Nat
+  ai : Nat
+  bi : Nat
+  base : Nat
+  conf : List (Nat × Nat)
+
+/-- sizes, the level `k` (JSON number or string) and optionally `conf_order`: the order in which the Python
+    set `conf` is iterated (must be a permutation of the model's `conf`; the model itself lists it in order of
+    first insertion) -/
+def parseNpa (j : Json) : Except String (Except Json NpaArgs) := do
+  let ao ← getNat j "ao"
+  let bo ← getNat j "bo"
+  let ai ← getNat j "ai"
+  let bi ← getNat j "bi"
+  if ao == 0 || bo == 0 || ai == 0 || bi == 0 then return .error (reject "InvalidSizes")
+  let kv ← j.getObjVal? "k"
+  let lvl : LevelArg ← match kv with
+    | .str s => pure (LevelArg.str s)
+    | v => do pure (LevelArg.int (← v.getNat?))
+  match levelSpec lvl with
+  | none => return .error (reject "InvalidLevel")
+  | some (base, conf) =>
+    if isNull j "conf_order" then return .ok ⟨ao, bo, ai, bi, base, conf⟩
+    let ord ← (← (← j.getObjVal? "conf_order").getArr?).toList.mapM (fun v => do
+      match ← asNatList v with
+      | [a, b] => pure (a, b)
+      | _ => throw "conf_order entries must be pairs")
+    if ord.length == conf.length && ord.all (fun c => conf.contains c) && conf.all (fun c => ord.contains c) then
+      return .ok ⟨ao, bo, ai, bi, base, ord⟩
+    else return .error (reject "ConfOrderMismatch")
+
+def withNpa (j : Json) (k : NpaArgs → Except String Json) : Except String Json := do
+  match ← parseNpa j with
+  | .error r => return r
+  | .ok a => k a
+
+def npaParse : Handler := fun j => do
+  let s ← (← j.getObjVal? "k").getStr?
+  match parseLevel s with
+  | none => return reject "InvalidLevel"
+  | some (base, conf) => return Json.mkObj [("base", Json.num base), ("conf", pairsJson conf)]
+
+def npaWords : Handler := fun j =>
+  withNpa j fun a =>
+    let ws := genWords a.base a.conf a.ao a.ai a.bo a.bi
+    return Json.mkObj [("base", Json.num a.base), ("conf", pairsJson a.conf), ("dim", Json.num ws.length),
+      ("words", Json.arr (ws.map wordJson).toArray)]
+
+def npaReduce : Handler := fun j => do
+  let w ← (← (← j.getObjVal? "word").getArr?).toList.mapM symOfJson
+  return Json.mkObj [("word", wordJson (reduceWord w))]
+
+def npaConstraintsOp : Handler := fun j =>
+  withNpa j fun a =>
+    let ws := genWords a.base a.conf a.ao a.ai a.bo a.bi
+    let cs := npaConstraints a.ao a.bo a.ai a.bi a.base a.conf
+    let nz := (cs.filter fun c => match c with | .zero _ _ => true | _ => false).length
+    return Json.mkObj [("dim", Json.num ws.length), ("count", Json.num cs.length), ("n_zero", Json.num nz),
+      ("constraints", Json.arr (cs.map constrJson).toArray)]
+
+/-- the point of the relaxation defined by the deterministic strategy `(f, g)` (lists of answers per question):
+    `z`, the objective `Σ prob·pred·K` (when `prob`, `pred` are given), the strategy's winning probability
+    computed directly, and (unless `self_check` is false) the model's own evaluation of every generated constraint
+    at `(z zᵀ, K)`: the list of violated ones, empty by `npa_sound_det` -/
+def npaEmbed : Handler := fun j =>
+  withNpa j fun a => do
+    let fl ← getNatList j "f"
+    let gl ← getNatList j "g"
+    if fl.length != a.ai || gl.length != a.bi || fl.any (· ≥ a.ao) || gl.any (· ≥ a.bo) then
+      return reject "InvalidStrategy"
+    let f := fnOfList fl
+    let g := fnOfList gl
+    let ws := genWords a.base a.conf a.ao a.ai a.bo a.bi
+    let z := listOfFn ws.length (detZ f g ws)
+    let cs := npaConstraints a.ao a.bo a.ai a.bi a.base a.conf
+    let zArr := z.toArray
+    let R : Nat → Nat → Rat := fun i k => zArr[i]! * zArr[k]!
+    let selfCheck := (getBool j "self_check").toOption.getD true
+    let bad := if selfCheck then cs.filter fun c => !(c.check a.ao a.bo R (detK f g)) else []
+    let base := [("dim", Json.num ws.length), ("z", Json.arr (z.map ratJson).toArray),
+      ("model_violated", Json.arr (bad.map constrJson).toArray)]
+    if isNull j "prob" then return Json.mkObj base
+    let prob := (← getRatList j "prob").toArray
+    let pred := (← getRatList j "pred").toArray
+    if prob.size != a.ai * a.bi || pred.size != a.ao * a.bo * a.ai * a.bi then return reject "InvalidGame"
+    let P := probOfArray a.bi prob
+    let V := predOfArray a.bo a.ai a.bi pred
+    return Json.mkObj (base ++ [("objective", ratJson (objective a.ao a.bo a.ai a.bi P V (detK f g))),
+      ("det_value", ratJson (detValueN a.ai a.bi P V f g))])
+
+end Npa
+
 def handlers : List (String × Handler) := [
   ("c07_classical_value", valueOp classicalValue),
   ("c07_classical_value_fixed", valueOp classicalValueFixed),
@@ -137,6 +272,11 @@ def handlers : List (String × Handler) := [
   ("c07_product_game", productGame),
   ("c07_bcs_game", bcsGame),
   ("c07_history", history),
-  ("c07_update_odometer", odometer)]
+  ("c07_update_odometer", odometer),
+  ("c07_npa_parse", npaParse),
+  ("c07_npa_words", npaWords),
+  ("c07_npa_reduce", npaReduce),
+  ("c07_npa_constraints", npaConstraintsOp),
+  ("c07_npa_embed", npaEmbed)]
 
 end Toq.Driver.C07
